@@ -235,6 +235,27 @@ def Hub.currentSigners (h : Hub) (chain : String) : M (List Signer) :=
   else if total == 0 then panicM "division by zero"
   else .ok (raw.map fun s => { s with power := s.power * maxU32 / total })
 
+/-! ### Fee and commission distribution of an executed batch (pure parts) -/
+
+/-- Share of validator commission paid to a signer of normalised power `p` out of `totalPower`. -/
+def commissionShare (totalComm : Int) (p totalPower : Nat) : Int := Int.tdiv (totalComm * p) totalPower
+
+/-- `feePaid·price(base)/price(token)·150/100`, truncated: the relayer's gas cost in the token, plus 50 %. -/
+def gasCostInToken (feePaid pBase pTok : Int) : Int :=
+  decTruncateInt (decQuoInt64 (decMulInt64 (decQuo (decMul (toDec feePaid) pBase) pTok) 150) 100)
+
+/-- The relayer reimbursement: the gas cost, capped by the fees collected in the batch. -/
+def reimbursement (cost totalFee : Int) : Int := if cost ≥ totalFee then totalFee else cost
+
+/-- Fees of the transfers that paid at least the average reimbursement share. -/
+def goodFees (fees : List Int) (avg : Int) : Int := sumInts (fees.filter fun f => f ≥ avg)
+
+/-- Pro-rata refund of what is left of the fees to a transfer that paid `cf`. -/
+def refundShare (feeLeft cf good : Int) : Int := Int.tdiv (feeLeft * cf) good
+
+/-- The fee kept for a transfer, in external units, after a refund given in hub units. -/
+def feeKept (paidExt refundExt : Int) : Int := paidExt - refundExt
+
 /-- `batchTxExecuted`. -/
 def Hub.batchExecuted (h : Hub) (chain extToken : String) (nonce : Nat) (txHash : String)
     (feePaid : Int) (feePayer : String) : M Hub := do
@@ -259,7 +280,7 @@ def Hub.batchExecuted (h : Hub) (chain extToken : String) (nonce : Nat) (txHash 
       let h ← h.mintTo tempAddr tok.denom totalComm
       valset.foldlM (fun (h : Hub) v => do
         if totalPower == 0 then panicM "division by zero"
-        let amount := Int.tdiv (totalComm * v.power) totalPower
+        let amount := commissionShare totalComm v.power totalPower
         if amount ≤ 0 then return h
         match h.createSte "minter" tempAddr v.addr tok.denom amount 0 0 "#commission" "" "" with
         | .ok (h, _) => pure h
@@ -273,9 +294,9 @@ def Hub.batchExecuted (h : Hub) (chain extToken : String) (nonce : Nat) (txHash 
   let some pBase := alGet h.prices baseCoin | panicM "price not found"
   let some pTok := alGet h.prices tok.denom | panicM "price not found"
   if pTok == 0 then panicM "division by zero"
-  let amount := decTruncateInt (decQuoInt64 (decMulInt64 (decQuo (decMul (toDec feePaid) pBase) pTok) 150) 100)
+  let amount := gasCostInToken feePaid pBase pTok
   if amount < 0 then panicM "negative coin amount"
-  let fee := if amount ≥ totalFee then totalFee else amount
+  let fee := reimbursement amount totalFee
   if fee ≤ 0 then return h
   let h ← h.mintTo tempAddr tok.denom fee
   let h ← (match h.createSte "minter" tempAddr feePayer tok.denom fee 0 0 "#fee" "" "" with
@@ -289,12 +310,12 @@ def Hub.batchExecuted (h : Hub) (chain extToken : String) (nonce : Nat) (txHash 
   if n == 0 then panicM "division by zero"
   let avg := Int.tdiv fee n
   let conv (t : Ste) : Int := h.fromExternal chain tok.extId t.fee
-  let good := sumInts ((b.txs.filter fun t => conv t ≥ avg).map conv)
+  let good := goodFees (b.txs.map conv) avg
   b.txs.foldlM (fun (h : Hub) t => do
     let cf := conv t
     if cf < avg then return h
     if good == 0 then panicM "division by zero"
-    let toRefund := Int.tdiv (feeLeft * cf) good
+    let toRefund := refundShare feeLeft cf good
     if t.refundChain != "minter" then return h
     if toRefund ≤ 0 then return h
     let h ← (match h.createSte "minter" tempAddr t.refundAddr tok.denom toRefund 0 0 "#fee" "" "" with
@@ -304,6 +325,6 @@ def Hub.batchExecuted (h : Hub) (chain extToken : String) (nonce : Nat) (txHash 
     match alGet h.feeRec t.txHash with
     | none => panicM "nil fee record"
     | some (vc, ef) =>
-      return { h with feeRec := alSet h.feeRec t.txHash (vc, ef - h.toExternal chain tok.extId toRefund) }) h
+      return { h with feeRec := alSet h.feeRec t.txHash (vc, feeKept ef (h.toExternal chain tok.extId toRefund)) }) h
 
 end Mhub2
